@@ -229,7 +229,7 @@ for cfg, tier in (('debug8', 'quick'), ('baseline', 'quick'), ('debug16', 'thoro
 # ---------------------------------------------------------------- object-creating helpers with throwing constructors, joint allocations
 SM = {1: ('allocate_unique<elem[]>', ['C20', 'C09', 'C02']), 2: ('allocate_unique<elem>', ['C20', 'C09']), 4: ('allocate_joint<jt> (joint_array<elem> + joint_array<char>)', ['C11', 'C20']),
       5: ('clone_joint', ['C11', 'C20']), 7: ('allocate_joint<jt2> (joint_array<char> before joint_array<elem>: padding)', ['C11', 'C20']), 6: ('joint_ptr move + reset', ['C11', 'C12', 'C20']), 3: ('allocate_shared<elem>', ['C20'])}
-def sm_job(case, tier, nmax, timeout=900, mem=12):
+def sm_job(case, tier, nmax, timeout=900, mem=16):
     add('smart-%d-n%d' % (case, nmax), SM[case][1], 'smart', 'smart_step.c', config='release', defines=['CASE=%d' % case, 'NMAX=%d' % nmax, 'HEAP_SIZE=512'],
         unwind=20, timeout=timeout, tier=tier, mem_gb=mem, desc='%s with a constructor that throws at a symbolic index (or not at all), leaf allocation may fail' % SM[case][0],
         bounds='array length 0..%d, failure at every constructor call index or none, joint additional size 0..64, second array 0..16 bytes' % nmax)
@@ -250,7 +250,7 @@ for tseq in range(4):
             if tier == 'thorough': continue      # these schedules do not decide within the budget (see DESIGN.md C14)
             add('temp-sched-t%d-a%d%s' % (tseq, aseq, '-exit' if ex else ''), ['C14'], 'temp', 'temp_step.c', config='release',
                 defines=['CASE=2', 'STEPS=2', 'TSEQ=%d' % tseq, 'ASEQ=%d' % aseq, 'HEAP_SIZE=%d' % TEMP_HEAP, 'IR_HOOK_MALLOC', 'MAXB=2'] + (['CHECK_EXIT'] if ex else []),
-                unwind=10, timeout=300, threads=2, model_only=True,
+                unwind=10, timeout=600, threads=2, model_only=True, mem_gb=10,
                 desc='stack list schedule: threads %s, actions %s (0 use, 1 initializer scope, 2 thread exit)%s' % ([tseq & 1, tseq >> 1 & 1], [aseq % 3, aseq // 3], ', then program exit' if ex else ''),
                 bounds='2 threads, 2 steps at API granularity (schedule is a constant of the query), thread_local state modelled per thread')
 
@@ -288,7 +288,7 @@ for op in (2, 7, 8):          # leak accounting of the traits-level node / array
 CONT = {'vec': ('std::vector<long>', []), 'fwd': ('std::forward_list<long>', ['NODE_CONST=w_fwd_node_size_const']), 'lst': ('std::list<long>', ['NODE_CONST=w_lst_node_size_const'])}
 CONT_QUICK = [(0, 5), (0, 6), (1, 6), (0, 2), (1, 5), (0, 3), (0, 0), (1, 1)]
 CONT_BIG = [(0, 4), (1, 7), (4, 0), (7, 1), (4, 4), (7, 7), (4, 7), (7, 4)]      # copy assignment: needs far more memory
-def cont_job(kind, seq, steps, tier, timeout=900, mem=8):
+def cont_job(kind, seq, steps, tier, timeout=900, mem=12):
     code = sum(o * 8 ** i for i, o in enumerate(seq))
     add('cont-%s-%s' % (kind, ''.join(map(str, seq))), ['C10'], 'cont', 'cont_step.c', config='release',
         defines=['CONTK=%s' % kind, 'STEPS=%d' % steps, 'SEQ=%d' % code, 'HEAP_SIZE=1024', 'IR_LIST_MODELS', 'MAXB=2'] + CONT[kind][1], unwind=14, timeout=timeout, tier=tier, mem_gb=mem,
@@ -303,7 +303,7 @@ for kind in CONT:
             if 4 in (a, b) or 7 in (a, b):
                 if (a, b) in CONT_BIG[:4]: cont_job(kind, (a, b), 2, 'thorough', 3000, 24)     # copy assignment needs far more memory: four representative pairs
                 continue
-            cont_job(kind, (a, b), 2, 'thorough', 1800, 8)
+            cont_job(kind, (a, b), 2, 'thorough', 1800, 12)
     for seq in ((0, 1, 6), (0, 5, 0), (0, 0, 5)): cont_job(kind, seq, 3, 'thorough', 3000, 16)
 
 # ---------------------------------------------------------------- C19: bucket selection through the real free_list_array
